@@ -18,10 +18,15 @@
 //!   `d=` (and the string of `v=`) are data fields (`common::data_field`: hex / `r` / `n` / `g`
 //!   segments); `e=<line>:<col>` is the exact location of the syntax error the document was built
 //!   to have (C08); `big=1`: the model is skipped, the oracles below still run.
+//!   After the final outcome `next_line` is called again `eng_cnf::RECALLS` times on the same
+//!   parser; every outcome is appended as `|AGAIN:<line | END | E:…>` (the driver re-runs the
+//!   model's `nextLine` on the state it is left in); `|AGAINVARIANT:<schedule>=…` only if a
+//!   schedule's re-calls differ from the one-shot run's.
 //! Oracles: C01 (same observation under every schedule), C03 (constructed lines → write_into →
 //! parse, `x`; parse∘write∘parse = parse), C04 (fault ⇒ io), C05 (no panic), C06 (independent
 //! whitespace tokenizer), C08 (location in range / on the corrupted token `t`), C09 (no line
-//! pulled beyond the completing one).
+//! pulled beyond the completing one); re-calls (`recall_oracles`): C05 no panic, C08 location inside
+//! the input / not before the earlier error / on a later line: where a fresh parser finds it.
 use crate::common::*;
 use crate::eng_cnf::schedules;
 use flussab::text::LineReader;
@@ -311,11 +316,20 @@ pub fn write_lines(lines: &[OLine]) -> Option<Vec<u8>> {
 pub struct RunObs {
     pub items: Vec<(OLine, usize)>,
     pub fin: String,
+    /// what `next_line` returned when it was called again (`eng_cnf::RECALLS` times) on the same
+    /// parser after its final outcome `fin`: a line's text, `END`, `E:io`, `E:syn:<line>:<col>`,
+    /// `E:panic` (after which no further call is made)
+    pub again: Vec<String>,
 }
 
 impl RunObs {
     pub fn text(&self, with_delivered: bool) -> String {
         join_obs(self.items.iter().map(|(l, d)| if with_delivered { format!("{}@{}", l.obs(), d) } else { l.obs() }), &self.fin)
+    }
+    /// `|AGAIN:<outcome>` per re-call: part of the observation (the Lean driver runs the model's
+    /// `nextLine` again on the state the model is left in).
+    pub fn again_text(&self) -> String {
+        crate::eng_cnf::again_text(&self.again)
     }
 }
 
@@ -343,7 +357,7 @@ impl std::io::Read for LineSrc {
         if off == len || buf.is_empty() {
             if off == len && s.2 && !s.3 {
                 s.3 = true;
-                return Err(std::io::Error::new(std::io::ErrorKind::Other, "fault"));
+                return Err(fault_error(std::io::ErrorKind::Other, &s.0));
             }
             s.3 = true;
             return Ok(0);
@@ -373,6 +387,7 @@ pub fn run_parser_pieces(data: Vec<u8>, fault: bool, piece: usize) -> RunObs {
 
 fn run_parser_on(src: impl std::io::Read + Clone + 'static, delivered: impl Fn() -> usize, chunk: usize) -> RunObs {
     let items = std::cell::RefCell::new(vec![]);
+    let again = std::cell::RefCell::new(vec![]);
     let fin = catch(|| {
         let mut reader = DeferredReader::from_read(src.clone());
         if chunk < crate::eng_cnf::SNIFF_BASE {
@@ -392,19 +407,34 @@ fn run_parser_on(src: impl std::io::Read + Clone + 'static, delivered: impl Fn()
             Ok(p) => p,
             Err(e) => return err_obs(&e),
         };
-        loop {
+        let fin = loop {
             match p.next_line() {
                 Ok(Some(l)) => {
                     let o = OLine::from_line(&l);
                     let d = delivered();
                     items.borrow_mut().push((o, d));
                 }
-                Ok(None) => return "END".to_string(),
-                Err(e) => return err_obs(&e),
+                Ok(None) => break "END".to_string(),
+                Err(e) => break err_obs(&e),
+            }
+        };
+        // `next_line` called again after its final outcome
+        for _ in 0..crate::eng_cnf::RECALL_N.with(|c| c.get()) {
+            let o = catch(|| match p.next_line() {
+                Ok(Some(l)) => OLine::from_line(&l).obs(),
+                Ok(None) => "END".to_string(),
+                Err(e) => err_obs(&e),
+            })
+            .unwrap_or_else(|| "E:panic".to_string());
+            let stop = o == "E:panic";
+            again.borrow_mut().push(o);
+            if stop {
+                break;
             }
         }
+        fin
     });
-    RunObs { items: items.into_inner(), fin: fin.unwrap_or_else(|| "E:panic".into()) }
+    RunObs { items: items.into_inner(), fin: fin.unwrap_or_else(|| "E:panic".into()), again: again.into_inner() }
 }
 
 // ------------------------------------------------------------------ independent reading (C06)
@@ -579,7 +609,7 @@ impl Case {
             "btor2 k={} ls={} d={}{}{}{}{}",
             match self.k { Some(k) => k.to_string(), None => "-".into() },
             if self.lsb { 2 } else { self.ls as u8 },
-            hex(&self.data),
+            compact_field(&self.data),
             match &self.expect { Some(x) => format!(" x={}", x), None => String::new() },
             match &self.tok { Some((l, c, n)) => format!(" t={}:{}:{}", l, c, n), None => String::new() },
             match &self.valid { Some((t, s)) => format!(" v={}:{}", t, hex(s)), None => String::new() },
@@ -596,6 +626,52 @@ fn exact_oracle(exact: Option<(usize, usize)>, fault: bool, fin: &str, sname: &s
             fails.push(format!("C08:the input stops being well-formed exactly at {}:{} but the parser reported {}{}", l, c, fin, sname));
         }
     }
+}
+
+/// C05 / C08 for `next_line` called again after the final outcome (`eng_cnf::recall_oracles`: no
+/// panic, a syntax error names a place inside the input and not before the earlier error), and
+/// the clause that is special to BTOR2: its lines are independent of each other, and a call of
+/// `next_line` crosses a line break only before it starts on a line (or when it returns a line).
+/// So if a call that follows a syntax error on line L1 reports a syntax error on a LATER line
+/// L2, it started on L2 afresh, and the offending token is the one a new parser finds in the
+/// text that begins with line L2: same column, on that text's first line.  (Whether a parser
+/// stays on the rejected line or moves on after an error is not prescribed; only where an error
+/// it reports may point.)
+fn recall_oracles(delivered: &[u8], fault: bool, run: &RunObs, sname: &str) -> Vec<String> {
+    let mut fails = crate::eng_cnf::recall_oracles(delivered, &run.fin, &run.again, "next_line", sname);
+    if fault {
+        return fails;
+    }
+    let pos = |o: &str| -> Option<(usize, usize)> {
+        let (l, c) = o.strip_prefix("E:syn:")?.split_once(':')?;
+        Some((l.parse().ok()?, c.parse().ok()?))
+    };
+    let mut prev = run.fin.clone();
+    for (i, o) in run.again.iter().enumerate() {
+        if let (Some((pl, _)), Some((l, col))) = (pos(&prev), pos(o)) {
+            if l > pl {
+                // start of line l
+                let mut off = 0;
+                let mut line = 1;
+                while line < l && off < delivered.len() {
+                    if delivered[off] == b'\n' { line += 1; }
+                    off += 1;
+                }
+                if line == l {
+                    let fresh = crate::eng_cnf::with_recalls(false, || run_parser(SchedSource::new(delivered[off..].to_vec(), false, vec![]), 16384));
+                    if !(fresh.items.is_empty() && fresh.fin == format!("E:syn:1:{}", col)) {
+                        let found = if fresh.items.is_empty() { fresh.fin.clone() } else { format!("{} well-formed line(s), then {}", fresh.items.len(), fresh.fin) };
+                        fails.push(format!(
+                            "C08:next_line called again after {} reports a syntax error at {}:{}, but the text that starts with line {} has: {} (call {}, schedule {})",
+                            prev, l, col, l, found, i + 1, sname
+                        ));
+                    }
+                }
+            }
+        }
+        prev = o.clone();
+    }
+    fails
 }
 
 pub fn run_case(line: &str) -> (String, Vec<String>) {
@@ -631,6 +707,7 @@ pub fn run_case(line: &str) -> (String, Vec<String>) {
             fails.push("C05:parser panicked".into());
         }
         exact_oracle(c.exact, fault, &obs.fin, " (one line per read)", &mut fails);
+        fails.extend(recall_oracles(&delivered, fault, &obs, "one line per read"));
         // item i is completed by the i-th non-blank line: nothing beyond that line may have been pulled
         let mut starts = vec![0usize];
         for (i, b) in delivered.iter().enumerate() {
@@ -650,7 +727,7 @@ pub fn run_case(line: &str) -> (String, Vec<String>) {
                 None => fails.push(format!("C09:line {} returned but the input has only {} non-blank lines", i, nonblank.len())),
             }
         }
-        return (obs.text(true), fails);
+        return (obs.text(true) + &obs.again_text(), fails);
     }
 
     // ---- C01: every schedule gives the same observation
@@ -671,10 +748,18 @@ pub fn run_case(line: &str) -> (String, Vec<String>) {
     };
     let base = run_parser(mk(scheds[0].1.clone()), scheds[0].2);
     let base_text = base.text(false);
+    fails.extend(recall_oracles(&delivered, fault, &base, "one-shot"));
+    let mut again_note = String::new();
     let mut variant_note = String::new();
-    let free: Option<RunObs> = if fault { Some(run_parser(SchedSource::new(c.data.clone(), false, vec![]), 16384)) } else { None };
-    for (name, ev, chunk) in scheds.iter().skip(1) {
-        let o = run_parser(mk(ev.clone()), *chunk).text(false);
+    let free: Option<RunObs> = if fault { Some(crate::eng_cnf::with_recalls(false, || run_parser(SchedSource::new(c.data.clone(), false, vec![]), 16384))) } else { None };
+    for (i, (name, ev, chunk)) in scheds.iter().enumerate().skip(1) {
+        // re-calls under the one-shot schedule, the 1-byte schedule and two more that rotate
+        let rc = crate::eng_cnf::recalls_on(i, name, delivered.len());
+        let ro = crate::eng_cnf::with_recalls(rc, || run_parser(mk(ev.clone()), *chunk));
+        let o = ro.text(false);
+        if rc && (ro.again != base.again || ro.fin != base.fin) {
+            fails.extend(recall_oracles(&delivered, fault, &ro, name));
+        }
         if fault && name.starts_with("sniff") {
             if o.ends_with("E:panic") {
                 fails.push(format!("C05:parser panicked under schedule {}", name));
@@ -693,6 +778,13 @@ pub fn run_case(line: &str) -> (String, Vec<String>) {
             }
             fails.extend(crate::eng_cnf::variant_oracles(&delivered, fault, name, &o, c.expect.as_ref(), c.tok, true));
             break;
+        }
+        if rc && ro.again != base.again && again_note.is_empty() {
+            fails.push(format!(
+                "C01:what next_line returns when called again after {} depends on the read schedule: one-shot={} {}={}",
+                base.fin, base.again.join(","), name, ro.again.join(",")
+            ));
+            again_note = format!("|AGAINVARIANT:{}={}", name, ro.again.join(","));
         }
     }
     // ---- C05
@@ -764,12 +856,12 @@ pub fn run_case(line: &str) -> (String, Vec<String>) {
         match write_lines(&lines) {
             None => fails.push("C03:a parsed line is refused by the public constructors".into()),
             Some(bytes) => {
-                let again = run_parser(SchedSource::new(bytes, false, vec![]), 16384).text(false);
+                let again = crate::eng_cnf::with_recalls(false, || run_parser(SchedSource::new(bytes, false, vec![]), 16384)).text(false);
                 if again != base_text {
                     fails.push(format!("C03:parse(write(parse(t))) = {} but parse(t) = {}", again, base_text));
                 }
             }
         }
     }
-    (base_text + &variant_note, fails)
+    (base_text + &base.again_text() + &again_note + &variant_note, fails)
 }
